@@ -18,7 +18,7 @@ var (
 		"A", "S", "D", "R", "C", "F", "E", "G", "T", "P", "W", "I", "/car/", "/nope/", "/", "q", "!", "1", ""}
 	fmtOpen   = []string{"(", "[", "{", "<"}
 	fmtClose  = map[string]string{"(": ")", "[": "]", "{": "}", "<": ">"}
-	fmtParams = []string{"", "0", "1", "2", "3", "10", "36", "37", "100", "10000", "-1", "-10", "+5", "v", "V", "#", "'x", "',", "'", "1,2", ",", ",,", ",,,'*", "0,0", "1,1,1,1,1", "v,v", "#,#", "2,,,'0"}
+	fmtParams = []string{"", "0", "1", "2", "3", "10", "36", "37", "100", "10000", "-1", "-10", "+5", "v", "V", "#", "'x", "',", "'", "1,2", ",", ",,", ",,,'*", "0,0", "1,1,1,1,1", "v,v", "#,#", "2,,,'0", ",2", ",0", ",1", "5,2", "10,3,,'*", "8,3,2", ",,2"}
 	// every iteration directive gets a numeric repetition limit: an iteration whose body consumes no
 	// argument repeats for ever by definition, which is not a hang
 	fmtIterLimits = []string{"0", "1", "2", "3", "10"}
@@ -84,7 +84,9 @@ func genFormat(rt *rapid.T) Case {
 	c.Args = append(c.Args, fmtDests[rapid.IntRange(0, len(fmtDests)-1).Draw(rt, "dest")], "s:"+sb.String())
 	na := rapid.IntRange(0, 5).Draw(rt, "nargs")
 	for i := 0; i < na; i++ {
-		switch rapid.IntRange(0, 4).Draw(rt, "argkind") {
+		switch rapid.IntRange(0, 5).Draw(rt, "argkind") {
+		case 2:
+			c.Args = append(c.Args, "e:"+rapid.SampledFrom([]string{"0.0001d0", "0.5d0", "1.0d10", "1.0d-10", "123.456d0", "-0.001d0", "1.0d21", "1.0e-7", "0.0d0", "99.995d0", "1/3", "-1.5s0", "9.999d0"}).Draw(rt, "float"))
 		case 0:
 			c.Args = append(c.Args, "i:"+strconv.Itoa(rapid.SampledFrom([]int{0, 1, 2, 5, 12, 1000, -7, 10000}).Draw(rt, "int")))
 		case 1:
